@@ -195,6 +195,10 @@ def run_case(cs):
         pos = 0
         pieces = 0
         peek = rng.random() < 0.5
+        reuse_buffer = rng.random() < 0.4
+        shared = bytearray(rng.choice([4000, 8192, 65536]))
+        if reuse_buffer:
+            cs.count("streaming_from_a_reused_buffer")
         while pos < n:
             step = rng.choice([1, 7, 64, 4096, 65536, MIB, n])
             if peek and pieces in (0, 1, 3):
@@ -203,7 +207,14 @@ def run_case(cs):
                 if h.string_digest() != refhash.digest(f, data[:pos]) and n <= 70000:
                     cs.violation("digest-mismatch", {"kind": "digest-mismatch", "format": f, "entry": "streaming-prefix", "size_class": _size_class(n)}, {"prefix": pos})
                 cs.count("running_digests_taken")
-            h.update(data[pos : pos + step])
+            piece = data[pos : pos + step]
+            if reuse_buffer and len(piece) <= len(shared):
+                # the read-into-one-buffer idiom (bytearray + readinto + memoryview, as hashlib.file_digest does): what
+                # was handed over must have been taken in before update() returns
+                shared[: len(piece)] = piece
+                h.update(memoryview(shared)[: len(piece)])
+            else:
+                h.update(piece)
             pos += step
             pieces += 1
             if pieces > 64:
